@@ -65,12 +65,12 @@ Local Notation lim := (lim ts).
 Local Notation len := (zlen ts).
 (* ---------------------------------------------------------------- accept on a known stream *)
 Lemma bind_accept_hit {B} pat (f : option (Z * token) -> M B) p mx i t r :
-  pat_nontrivia pat = true -> 0 <= p -> SS p = (i, t) :: r -> kmatch (kd t) pat = true -> i < lim mx ->
+  pat_nontrivia pat = true -> 0 <= p -> SS p = (i, t) :: r -> kmatch (kd t) pat = true -> fence_ok mx i = true ->
   bindM (accept ts pat) f (p, mx) = f (Some (i, t)) (i + 1, mx).
 Proof. intros. apply bind_ok. eapply accept_hit; eassumption. Qed.
 
 Lemma bind_expect_hit {B} pat (f : Z * token -> M B) p mx i t r :
-  pat_nontrivia pat = true -> 0 <= p -> SS p = (i, t) :: r -> kmatch (kd t) pat = true -> i < lim mx ->
+  pat_nontrivia pat = true -> 0 <= p -> SS p = (i, t) :: r -> kmatch (kd t) pat = true -> fence_ok mx i = true ->
   bindM (expect ts pat) f (p, mx) = f (i, t) (i + 1, mx).
 Proof.
   intros. apply bind_ok. unfold expect. erewrite bind_ok by (eapply accept_hit; eassumption). reflexivity.
@@ -85,7 +85,7 @@ Proof.
 Qed.
 
 Lemma bind_accept_first_hit {B} ps (f : option (Z * token) -> M B) p mx i t r :
-  forallb pat_nontrivia ps = true -> 0 <= p -> SS p = (i, t) :: r -> i < lim mx -> anyof ps (kd t) = true ->
+  forallb pat_nontrivia ps = true -> 0 <= p -> SS p = (i, t) :: r -> fence_ok mx i = true -> anyof ps (kd t) = true ->
   bindM (accept_first ts ps) f (p, mx) = f (Some (i, t)) (i + 1, mx).
 Proof. intros. apply bind_ok. eapply accept_first_hit; eassumption. Qed.
 
@@ -544,7 +544,7 @@ Proof.
     rewrite mk_eq. apply RT_ok; [lia|]. split; [exact Q6|]. split; [lia|]. split; [|split; reflexivity]. den_side. }
   destruct (kmatch (kd ht) (PClass CName)) eqn:Ek.
   - destruct (spos ts p hi ht r0 Hp0 Hs) as (Hle & Hlt & Hn). rewrite Hs in Hg.
-    assert (Hil : hi < lim mx).
+    assert (Hil : fence_ok mx hi = true).
     { destruct HC0 as (_ & _ & _ & Hfen). apply Hfen. eapply name_exp_leaf; eassumption. }
     hit. assert (Hf2 : follow (nomatch [psym "="%bs]) mx (SS (hi + 1))).
     { rewrite Hn. eapply name_exp_second; eassumption. }
